@@ -184,6 +184,37 @@ macro_rules! query_loop {
                 (f, g) => return Err(Fail::new("fast-vs-general/query-equals-axis", format!("{}: query equal to the x axis: outcomes differ or fail: {:?} / {:?}", $ctx, f.map(|r| r.map(|_| ())), g.map(|r| r.map(|_| ()))))),
             }
         }
+        // wrongly shaped buffers (leading length off by one, trailing shape right): the fast path must reject what the
+        // per-element path rejects
+        {
+            let len = qshape_for(1)[0];
+            let xa = Array1::from_vec(s.qx[..len].to_vec());
+            let ya = Array1::from_vec(s.qy[..len].to_vec());
+            let (xd, yd) = (xa.clone().into_dyn(), ya.clone().into_dyn());
+            if let Ok(Ok(good)) = catch(|| callq_typed!($two, interp, &xa, &ya)) {
+                for delta in [1isize, -1] {
+                    let mut dim = good.raw_dim();
+                    if delta < 0 && dim[0] == 0 {
+                        continue;
+                    }
+                    dim[0] = (dim[0] as isize + delta) as usize;
+                    let fill = good.iter().next().cloned().unwrap_or(s.qx[0]);
+                    let mut wrong = ndarray::Array::from_elem(dim, fill);
+                    let mut wrong_d = wrong.clone().into_dyn();
+                    let f = catch(|| callinto!($two, interp, &xa, &ya, wrong.view_mut()));
+                    let g = catch(|| callinto!($two, interp, &xd, &yd, wrong_d.view_mut()));
+                    let accepted = |r: &Result<Result<(), String>, String>| matches!(r, Ok(Ok(())));
+                    $obs.asserts += 1;
+                    $obs.class("wrong-leading-length-buffer");
+                    if accepted(&f) != accepted(&g) {
+                        return Err(Fail::new(
+                            "fast-vs-general/wrong-buffer",
+                            format!("{}: interp_array_into with {} query points and a buffer whose leading length is {}: fast path (Ix1 query) {:?}, per-element path (IxDyn query) {:?}", $ctx, len, (len as isize + delta), f, g),
+                        ));
+                    }
+                }
+            }
+        }
         one!(Ix2, "Ix2", 2, false);
         one!(Ix3, "Ix3", 3, false);
         one!(IxDyn, "IxDyn(rank 1)", 1, false);
@@ -197,6 +228,24 @@ macro_rules! callq {
     }};
     (two, $i:expr, $x:expr, $y:expr) => {
         $i.interp_array($x, $y).map(|a| a.into_dyn()).map_err(|e| e.to_string())
+    };
+}
+macro_rules! callq_typed {
+    (one, $i:expr, $x:expr, $y:expr) => {{
+        let _ = $y;
+        $i.interp_array($x).map_err(|e| e.to_string())
+    }};
+    (two, $i:expr, $x:expr, $y:expr) => {
+        $i.interp_array($x, $y).map_err(|e| e.to_string())
+    };
+}
+macro_rules! callinto {
+    (one, $i:expr, $x:expr, $y:expr, $b:expr) => {{
+        let _ = $y;
+        $i.interp_array_into($x, $b).map_err(|e| e.to_string())
+    }};
+    (two, $i:expr, $x:expr, $y:expr, $b:expr) => {
+        $i.interp_array_into($x, $y, $b).map_err(|e| e.to_string())
     };
 }
 macro_rules! ncasts {
